@@ -258,6 +258,13 @@ class Program:
     def _index_module(self, m: Module):
         for stmt in m.tree.body:
             self._index_stmt_imports(m, stmt)
+        # imports inside functions / classes: visible module-wide for resolution purposes (approximation)
+        for node in ast.walk(m.tree):
+            if isinstance(node, (ast.Import, ast.ImportFrom)):
+                saved = dict(m.imports)
+                self._index_stmt_imports(m, node)
+                for k, v in saved.items():     # top-level imports win
+                    m.imports[k] = v
         counter = {"n": 0}
 
         def visit_body(body, cls: Optional[ClassInfo], encl_cls: Optional[ClassInfo],
